@@ -20,35 +20,54 @@ Theorem C04_weights_sum_one : forall l, l <> [] -> (sumQ (weighQ l) == 1)%Q.
 Proof. exact weights_sum_one. Qed.
 Print Assumptions C04_weights_sum_one.
 
+(* Since commit 290c777 weighTargets falls back to the even distribution when a computed weight fails
+   [w >= 0 && w <= 1+1e-9] or no slot is used.  On exact rationals that never happens (for a non-empty
+   route of at most 3*10^9 targets: usedSlots is a wrapping 64-bit sum), so the code as it is equals the
+   code before the commit; the three theorems above hold with or without the fallback. *)
+Theorem C04_fallback_never_on_Q : forall l : list Q, l <> [] -> (Z.of_nat (length l) <= 3000000000)%Z ->
+  fallback arithQ l = false.
+Proof. exact fallback_never_on_Q. Qed.
+Print Assumptions C04_fallback_never_on_Q.
+
+Theorem C04_weighQ_is_unrepaired : forall l : list Q, (Z.of_nat (length l) <= 3000000000)%Z ->
+  weighQ l = weighQ_unrepaired l.
+Proof. exact weighQ_eq_unrepaired. Qed.
+Print Assumptions C04_weighQ_is_unrepaired.
+
+Theorem C04_route_ring_Q_is_unrepaired : forall order (l : list Q), (Z.of_nat (length l) <= 3000000000)%Z ->
+  route_ring arithQ order l = route_ring_unrepaired arithQ order l.
+Proof. exact route_ring_Q_eq. Qed.
+Print Assumptions C04_route_ring_Q_is_unrepaired.
+
 (* fixed weights are honoured as given while they fit and somebody can take the rest *)
-Theorem C04_fixed_honoured : forall l i f w,
+Theorem C04_fixed_honoured : forall (l : list Q) i f w, (Z.of_nat (length l) <= 3000000000)%Z ->
   nth_error l i = Some f -> (0 < f)%Q -> (sum_pos l <= 1)%Q -> n_fix l < length l ->
   nth_error (weighQ l) i = Some w -> (w == f)%Q.
 Proof. exact fixed_honoured. Qed.
 Print Assumptions C04_fixed_honoured.
 
 (* scaled down proportionally if they exceed 100% (dynamic targets then get nothing) *)
-Theorem C04_scaled_down : forall l i f w,
+Theorem C04_scaled_down : forall (l : list Q) i f w, (Z.of_nat (length l) <= 3000000000)%Z ->
   nth_error l i = Some f -> (0 < f)%Q -> (1 < sum_pos l)%Q ->
   nth_error (weighQ l) i = Some w -> (w == f / sum_pos l)%Q.
 Proof. exact scaled_down. Qed.
 Print Assumptions C04_scaled_down.
 
-Theorem C04_scaled_down_dynamic : forall l i f w,
+Theorem C04_scaled_down_dynamic : forall (l : list Q) i f w, (Z.of_nat (length l) <= 3000000000)%Z ->
   nth_error l i = Some f -> ~ (0 < f)%Q -> (1 < sum_pos l)%Q ->
   nth_error (weighQ l) i = Some w -> (w == 0)%Q.
 Proof. exact scaled_down_dynamic. Qed.
 Print Assumptions C04_scaled_down_dynamic.
 
 (* scaled up if every target is fixed and they sum to less *)
-Theorem C04_scaled_up : forall l i f w,
+Theorem C04_scaled_up : forall (l : list Q) i f w, (Z.of_nat (length l) <= 3000000000)%Z ->
   nth_error l i = Some f -> n_fix l = length l -> (sum_pos l < 1)%Q ->
   nth_error (weighQ l) i = Some w -> (w == f / sum_pos l)%Q.
 Proof. exact scaled_up. Qed.
 Print Assumptions C04_scaled_up.
 
 (* the remaining targets share the remainder equally *)
-Theorem C04_dynamic_equal_share : forall l i f w,
+Theorem C04_dynamic_equal_share : forall (l : list Q) i f w, (Z.of_nat (length l) <= 3000000000)%Z ->
   nth_error l i = Some f -> ~ (0 < f)%Q ->
   nth_error (weighQ l) i = Some w -> (w == (1 - Qmin 1 (sum_pos l)) / qn (n_dyn l))%Q.
 Proof. exact dynamic_equal_share. Qed.
@@ -223,9 +242,30 @@ Theorem C04_route_split_any_tie_order : forall order1 order2 (l : list Q),
 Proof. exact route_split_order_independent. Qed.
 Print Assumptions C04_route_split_any_tie_order.
 
-(* ---- binary64 (the instance Go executes).  The ONLY theorem of this file that uses the real
-   numbers (Flocq's B2R) and therefore the four axioms of Coq's Reals library.  One theorem with four
-   clauses (a single assumption printout: bin/check's parser cannot separate consecutive axiom blocks).
+(* ---- binary64 (the instance Go executes).  The theorems of this group go through Flocq's B2R and
+   therefore use the four axioms of Coq's Reals library; nothing else in this file does. ---- *)
+(* THE HEADLINE (code since 290c777): for EVERY non-empty list of binary64 fixed weights -- NaN, +-Inf,
+   subnormals, huge values, any bit pattern -- of at most 3*10^9 targets, whatever the unstable sort
+   does: weighTargets returns (no panic, no endless probe loop), every slot count lies in [0, 10000],
+   the ring is non-empty without nil slot, and every later rr / rnd pick returns a target. *)
+Theorem C04_binary64_never_panics : forall (l : list f64) order,
+  0 < length l -> (Z.of_nat (length l) <= 3000000000)%Z -> (forall s, Permutation (order s) s) ->
+  exists r, route_ring arithF order l = Ok (weigh arithF l, r)
+    /\ Forall (fun n => 0 <= n <= 10000)%Z (map (slot_count arithF) (weigh arithF l))
+    /\ r <> [] /\ occupancy None r = 0
+    /\ (forall total, exists i c, rr_pick r total = Ok (Some i, c))
+    /\ (forall k, k < length r -> exists i, rnd_pick r k = Ok (Some i)).
+Proof. exact binary64_never_panics. Qed.
+Print Assumptions C04_binary64_never_panics.
+
+(* the weights it leaves behind are finite and within [0, float64(1+1e-9)], for every input *)
+Theorem C04_binary64_final_weights : forall l : list f64, (Z.of_nat (length l) <= 2 ^ 53)%Z ->
+  forall w, In w (weigh arithF l) ->
+    is_finite 53 1024 w = true /\ (0 <= B2R 53 1024 w <= B2R 53 1024 f64_wmax)%R.
+Proof. exact binary64_final_weights. Qed.
+Print Assumptions C04_binary64_final_weights.
+
+(* corollary kept from before the repair (same statement, now about the code as it is): four clauses.
    The sane input domain [sane_fixed]: a FixedWeight is finite and either not positive (a dynamic
    target) or within [2^-1000, 1].  The lower bound is necessary: 5e-324 lies in [0, 1] and crashes
    (finding F-C04-1).
@@ -250,6 +290,30 @@ Theorem C04_binary64_no_panic_on_domain :
        status_of (route_ring arithF order fixed) = Ok tt).
 Proof. exact binary64_on_domain_all. Qed.
 Print Assumptions C04_binary64_no_panic_on_domain.
+
+(* ---- the defects commit 290c777 repaired, as refutations about the [_unrepaired] model ---- *)
+(* F-C04-1: `weight Inf` / `weight 5e-324`: slot count -2^63, make() of a negative length *)
+Theorem C04_unrepaired_weight_inf_crashes :
+  route_status_unrepaired arithF [f64_of_bits 9218868437227405312] = Panic
+  /\ route_status_unrepaired arithF [f64_of_bits 1] = Panic.
+Proof. exact unrepaired_weight_inf_crashes. Qed.
+Print Assumptions C04_unrepaired_weight_inf_crashes.
+
+(* F-C04-2: two weights of 1e308: the table builds with an EMPTY ring, every pick divides by zero *)
+Theorem C04_unrepaired_weight_overflow_empty_ring :
+  exists ws, route_ring_unrepaired arithF stable_order
+               [f64_of_bits 9214871658872686752; f64_of_bits 9214871658872686752] = Ok (ws, [])
+  /\ forall total, rr_pick [] total = Panic.
+Proof. exact unrepaired_weight_overflow_empty_ring. Qed.
+Print Assumptions C04_unrepaired_weight_overflow_empty_ring.
+
+(* the same witnesses with the code as it is *)
+Theorem C04_repaired_witnesses_ok :
+  route_status arithF [f64_of_bits 9218868437227405312] = Ok tt
+  /\ route_status arithF [f64_of_bits 1] = Ok tt
+  /\ route_status arithF [f64_of_bits 9214871658872686752; f64_of_bits 9214871658872686752] = Ok tt.
+Proof. exact repaired_witnesses_ok. Qed.
+Print Assumptions C04_repaired_witnesses_ok.
 
 (* non-vacuity of the domain: 0.3 is a sane fixed weight, 0 a sane dynamic one *)
 Theorem C04_binary64_domain_nonvacuous :
